@@ -336,6 +336,15 @@ def ops_for(kinds, n, full=True):
         add('astype[mask](object)', lambda f: f.astype[f.columns.values != 'b'](object))
         add('astype(dict)', lambda f: f.astype({L[-1]: object, 'a': float}))
         add('astype(seq)', lambda f: f.astype([object if j % 2 else float for j in range(m)]))
+    if m >= 3:
+        # non-contiguous selections: several target slices inside ONE block, then a later block that needs converting
+        alt = [L[i] for i in range(0, m, 2)] + ([L[-1]] if (m - 1) % 2 else [])
+        for dt in ('float64', 'int64', 'object', 'bool', 'str'):
+            add(f'astype[alt-list]({dt})', lambda f, dt=dt: f.astype[alt](dt))
+            add(f'astype[alt-list-rev]({dt})', lambda f, dt=dt: f.astype[alt[::-1]](dt))
+            add(f'astype[::2]({dt})', lambda f, dt=dt: f.astype[L[0]::2](dt))
+            add(f'astype[alt-mask]({dt})', lambda f, dt=dt: f.astype[np.isin(f.columns.values, alt)](dt))
+            add(f'astype[ends]({dt})', lambda f, dt=dt: f.astype[[L[0], L[-2], L[-1]]](dt))
     add('via_str.upper', lambda f: f.via_str.upper())
     add('via_dt.year', lambda f: f.via_dt.year)
 
@@ -502,7 +511,7 @@ def _go_extend(f):
 NUMERIC_KINDS = frozenset('igf')          # int64 / float64: the only dtypes whose axis-0 reductions are layout independent
 REDUCTIONS = ('sum', 'prod', 'min', 'max', 'mean', 'median', 'std', 'var', 'all', 'any', 'cumsum', 'cumprod')
 STRING_RESULT_OPS = frozenset(('op:mul-series', 'op:mul-array2d', 'op:mul2', 'op:addstr', 'astype(str)', 'astype[list](str)', 'via_str.upper'))
-FILL_OPS = frozenset(('fillna(str)', 'assign.bloc(frame)'))
+FILL_OPS = frozenset(('fillna(str)', 'assign.bloc(frame)', 'fillna(L)', 'assign.bloc(L)'))
 
 
 CELLWISE_RAISING = frozenset(('astype', 'op', 'neg', 'pos', 'abs', 'invert', 'round', 'clip'))
@@ -540,7 +549,7 @@ def finding_for(name, kinds, n, layout):
         return 'C03-bloc-order'
     if name in FILL_OPS and multi:
         return 'C03-fill-block-dtype'
-    if name in STRING_RESULT_OPS and multi and any(k in 'UO' for k in kinds):
+    if (name in STRING_RESULT_OPS or (name.startswith('astype') and name.endswith('(str)'))) and multi and any(k in 'UO' for k in kinds):
         return 'C03-str-itemsize'
     if fam in CELLWISE_RAISING and _has_multi_object_block(kinds, layout):
         return 'C03-object-block-error-order'
@@ -591,7 +600,7 @@ def short(o, limit=160):
 QUICK_KINDS = ['', 'i', 'f', 'U', 'O', 'b', 'ii', 'if', 'fO', 'UU', 'iii', 'iif', 'UUf', 'bbO', 'iiff', 'iUUi']
 THOROUGH_FRAMES = (
     [(k, (0, 1, 2, 3, 4)) for k in ['', 'i', 'f', 'U', 'O', 'b', 'M', 'h']]
-    + [(k, (0, 1, 3)) for k in ['ii', 'if', 'fO', 'UU', 'bb', 'OO', 'gg', 'hi']] + [('OM', (2,)), ('fgb', (2,)), ('fOO', (2,))]
+    + [(k, (0, 1, 3)) for k in ['ii', 'if', 'fO', 'UU', 'bb', 'OO', 'gg', 'hi']] + [('OM', (2,)), ('fgb', (2,)), ('fOO', (2,)), ('gggi', (1, 3)), ('iiif', (1, 3)), ('OOOi', (2,)), ('gggii', (2,))]
     + [(k, (1, 3)) for k in ['iii', 'iif', 'fii', 'UUf', 'bbO', 'hhi', 'MMi', 'ggi', 'bib']]
     + [('iiii', (0, 1, 3))] + [(k, (1, 3)) for k in ['iiff', 'iUUi', 'OOii']] + [(k, (3,)) for k in ['ifif', 'ffff', 'fiib', 'hhgg']]
     + [('iiiii', (3,)), ('iifff', (3,)), ('ifbUO', (1,))])
@@ -601,7 +610,7 @@ ALL_KINDS = 'ihgfbUOM'
 
 QUICK_FRAMES = [('', (0, 1, 3)), ('i', (0, 1, 3)), ('f', (0, 1, 3)), ('U', (0, 2)), ('O', (1, 3)), ('ii', (0, 1, 3)), ('if', (0, 1, 3)),
                 ('UU', (1, 3)), ('fO', (0, 2)), ('iii', (1, 3)), ('iif', (0, 2)), ('bbO', (1, 3)), ('iiff', (1, 3)), ('iUUi', (0, 2)),
-                ('hi', (2,)), ('OM', (2,)), ('fgb', (2,)), ('fOO', (2,)), ('iiii', (3,))]
+                ('hi', (2,)), ('OM', (2,)), ('fgb', (2,)), ('fOO', (2,)), ('gggi', (2,)), ('iiif', (2,)), ('iiii', (3,))]
 
 
 def frame_space(ctx):
@@ -685,6 +694,112 @@ def layout_cases(ctx, kinds, n):
             yield Case('api:layout-vs-canonical', desc,
                        py_fail=py_fail, tags=tags, nontrivial=(r[0] != 'X'),
                        key=f'L|{kinds}|{n}|{ls}|{name}')
+
+
+# ---- operations that take ANOTHER Frame: the argument's layout varies independently of the receiver's
+def bound_columns(kinds, n, row):
+    """Per-column constant bounds (the column's own value at `row`), DISTINCT between neighbouring columns, same dtypes."""
+    out = []
+    for c in columns_for(kinds, n):
+        a = np.empty(n, dtype=c.dtype)
+        if n:
+            a[:] = c[min(row, n - 1)]
+        a.flags.writeable = False
+        out.append(a)
+    return out
+
+
+def pair_args(kinds, n, layout):
+    m = len(kinds)
+    mk = lambda cols: zoo.frame_from_columns(cols, layout, index=ROW_LABELS[:n], columns=COL_LABELS[:m], name='arg')
+    return mk(bound_columns(kinds, n, 1)), mk(bound_columns(kinds, n, 2)), mk(columns_for(kinds, n))
+
+
+def pair_ops(kinds, n):
+    import static_frame as sf
+    m = len(kinds)
+    checker = sf.Frame(np.array([[(i + j) % 2 == 0 for j in range(m)] for i in range(n)], dtype=bool).reshape(n, m),
+                       index=ROW_LABELS[:n], columns=COL_LABELS[:m])
+    return [
+        ('clip(lower=L,upper=U)', lambda f, L, U, G: f.clip(lower=L, upper=U)),
+        ('clip(lower=L)', lambda f, L, U, G: f.clip(lower=L)),
+        ('clip(upper=U)', lambda f, L, U, G: f.clip(upper=U)),
+        ('clip(lower=U,upper=L)', lambda f, L, U, G: f.clip(lower=U, upper=L)),
+        ('op:f+G', lambda f, L, U, G: f + G),
+        ('op:L-f', lambda f, L, U, G: L - f),
+        ('op:f==G', lambda f, L, U, G: f == G),
+        ('op:f<U', lambda f, L, U, G: f < U),
+        ('fillna(L)', lambda f, L, U, G: f.fillna(L)),
+        ('assign.loc[:,b:](L)', lambda f, L, U, G: f.assign.loc[:, 'b':](L.loc[:, 'b':])),
+        ('assign.iloc[:,::2](U)', lambda f, L, U, G: f.assign.iloc[:, ::2](U.iloc[:, ::2])),
+        ('assign.bloc(L)', lambda f, L, U, G: f.assign.bloc[checker](L)),
+        ('equals(G)', lambda f, L, U, G: (f.equals(G), G.equals(f))),
+        ('from_concat(f,L)', lambda f, L, U, G: sf.Frame.from_concat((f, L.relabel(index=lambda x: x + '2')))),
+        ('insert_after(L)', lambda f, L, U, G: f.insert_after('a', L.relabel(columns=lambda x: x + '2'))),
+    ]
+
+
+def pair_cases(ctx, kinds, n):
+    """Receiver layout x argument layout, every pair (thorough, m <= 4; quick: the small spaces and a sample), against canonical x canonical."""
+    m = len(kinds)
+    if m < 2:
+        return
+    lays = layouts(kinds, n)
+    canon = canonical_layout(m)
+    ops = pair_ops(kinds, n)
+    fc = build(kinds, n, canon)
+    ac = pair_args(kinds, n, canon)
+    ref = {}
+    for name, fn in ops:
+        try:
+            ref[name] = _obs(fn(fc, *ac))
+        except Exception as e:  # noqa
+            ref[name] = ('X', lit.err_class(e))
+    pairs = [(a, b_) for a in lays for b_ in lays if not (a == canon and b_ == canon)]
+    limit = None
+    if ctx.tier == 'quick':
+        limit = None if (kinds in ('iii', 'iiii') or len(lays) <= 5) else ctx.n(40, 40)
+    elif m >= 5:
+        limit = ctx.n(200, 200)
+    if limit is not None and len(pairs) > limit:
+        pairs = ctx.rng.sample(pairs, limit)
+    frames = {}
+    args = {}
+    for lf, lg in pairs:
+        if lf not in frames:
+            frames[lf] = build(kinds, n, lf)
+        if lg not in args:
+            args[lg] = pair_args(kinds, n, lg)
+        f, a = frames[lf], args[lg]
+        ctx.count('pair')
+        for name, fn in ops:
+            try:
+                o = _obs(fn(f, *a))
+            except Exception as e:  # noqa
+                o = ('X', lit.err_class(e))
+            r = ref[name]
+            fam = op_family(name)
+            fid = finding_for(name, kinds, n, lf) or finding_for(name, kinds, n, lg)
+            tags = _TAGS.get(('pair', fam, fid))
+            if tags is None:
+                tags = {'stratum': 'pair', 'family': fam}
+                if fid:
+                    tags['finding'] = fid
+                _TAGS[('pair', fam, fid)] = tags
+            py_fail = None
+            if o != r:
+                py_fail = (f'{name}: receiver layout {zoo.layout_str(lf)}, argument layout {zoo.layout_str(lg)} gives {short(o)}; '
+                           f'all-1-D receiver and argument give {short(r)}')
+            yield Case('api:argument-layout',
+                       {'kinds': kinds, 'rows': n, 'receiver_layout': zoo.layout_str(lf), 'argument_layout': zoo.layout_str(lg), 'op': name,
+                        'replay': f"from sfv.props.c03 import build, pair_args, pair_ops; f = build({kinds!r},{n},{lf!r}); L, U, G = pair_args({kinds!r},{n},{lg!r}); dict(pair_ops({kinds!r},{n}))[{name!r}](f, L, U, G)"}
+                       if (py_fail or fid) else _PAIR_SHARED.setdefault((kinds, n), {'kinds': kinds, 'rows': n, 'op': 'every operation of pair_ops on every (receiver layout, argument layout) pair -- see the case key'}),
+                       py_fail=py_fail, tags=tags, nontrivial=(r[0] != 'X'),
+                       key=f'P|{kinds}|{n}|{zoo.layout_str(lf)}|{zoo.layout_str(lg)}|{name}')
+
+
+_PAIR_SHARED = {}
+_PAIR_ROWS = {k: max(rows) for k, rows in THOROUGH_FRAMES}
 
 
 def _cell_obs(fn):
@@ -1066,6 +1181,8 @@ def cases(ctx):
                 seen.add((kinds, n))
                 ctx.count('kinds:' + (''.join(sorted(set(kinds))) or '-'))
                 yield from layout_cases(ctx, kinds, n)
+                if ctx.tier == 'quick' or len(kinds) < 4 or n == _PAIR_ROWS.get(kinds, n):
+                    yield from pair_cases(ctx, kinds, n)      # thorough, >= 4 columns: the pair space once per dtype sequence
                 yield from readers_cases(ctx, kinds, n)
                 yield from model_cases(ctx, kinds, n)
                 if len(kinds) <= 4:
